@@ -777,11 +777,20 @@ pub fn run(args: &Args) -> i32 {
                                 deaths.push((u64::MAX, why));
                                 break;
                             }
-                            // confirm alone (the first few per shard; later deaths of the same kind are taken as they come)
-                            if deaths.len() < 4 {
-                                let (st1, died1) = supervise(args, &format!("one:{id}"), &scratch.join(format!("progress-one-{k}")), case_timeout);
+                            // confirm alone: always for a suspected hang (a loaded machine can starve a worker; the solo run gets
+                            // three times the budget), and for the first few aborts per shard (later aborts of the same kind are
+                            // taken as they come)
+                            let hang = why.contains("no progress");
+                            if hang || deaths.len() < 4 {
+                                let t = if hang { case_timeout * 3 } else { case_timeout };
+                                let (st1, died1) = supervise(args, &format!("one:{id}"), &scratch.join(format!("progress-one-{k}")), t);
                                 match died1 {
                                     Some((_, why1)) => deaths.push((id, format!("{why}; alone: {why1}"))),
+                                    None if hang => {
+                                        // the case completes when run alone: the watchdog fired because the machine was busy
+                                        all.merge(st1);
+                                        all.count("watchdog_false_positives", 1);
+                                    }
                                     None => {
                                         // not reproducible alone: machinery problem, keep its results and go on
                                         all.merge(st1);
